@@ -4,5 +4,6 @@
 set -eu
 out=$1
 rm -rf "$out"; mkdir -p "$out"
-cd /verif/mc
-go run ./instrument -repo /repo -verif /verif -out "$out" -seq-errgroup pkg/proofs/sigma/compose/sigand/and.go,pkg/proofs/sigma/compose/sigor/or.go,pkg/encryption/utils.go,pkg/encryption/paillier/secret.go,pkg/signatures/bls/core.go,pkg/mpc/signatures/ecdsa/cggmp21/keygen/dkg/rounds.go,pkg/mpc/signatures/ecdsa/cggmp21/keygen/trusteddealer/dealer.go
+V=${VERIF:-/verif}
+cd "$V/mc"
+go run ./instrument -repo /repo -verif "$V" -out "$out" -seq-errgroup pkg/proofs/sigma/compose/sigand/and.go,pkg/proofs/sigma/compose/sigor/or.go,pkg/encryption/utils.go,pkg/encryption/paillier/secret.go,pkg/signatures/bls/core.go,pkg/mpc/signatures/ecdsa/cggmp21/keygen/dkg/rounds.go,pkg/mpc/signatures/ecdsa/cggmp21/keygen/trusteddealer/dealer.go
